@@ -92,7 +92,7 @@ def run_case(spec, ctx):
         ctx.note('fit refused: %s %s' % (ms['cls'], type(exc).__name__))
         return
     if ms['cls'] == 'Univariate':
-        where['selected'] = type(model._instance).__name__
+        where['selected'] = uni.selected_family(model)
     uni.laws(ctx, model, data, where)
     ctx.nontriv('%s|%r|%s|%d|%d' % (ms['cls'], ms.get('kwargs'), spec['data']['kind'], len(data),
                                     spec['data']['seed']))
